@@ -440,3 +440,24 @@ func (d *dec) timestamp(pos, p, ve int) (rm.TS, error) {
 	}
 	return ts, nil
 }
+
+// ReadVarUint decodes one VarUInt at the start of b (reference implementation).
+func ReadVarUint(b []byte) (uint64, int, error) {
+	d := &dec{b}
+	return d.varUint(0, len(b))
+}
+
+// ReadVarInt decodes one VarInt at the start of b.
+func ReadVarInt(b []byte) (v int64, negZero bool, n int, err error) {
+	d := &dec{b}
+	return d.varInt(0, len(b))
+}
+
+// ReadUint decodes a whole-slice UInt field.
+func ReadUint(b []byte) *big.Int { return new(big.Int).SetBytes(b) }
+
+// ReadInt decodes a whole-slice Int field.
+func ReadInt(b []byte) (*big.Int, bool) {
+	d := &dec{b}
+	return d.intField(0, len(b))
+}
